@@ -6,7 +6,8 @@
    Kept findings mirrored by the models: #15 (every bracket is rewritten once a backtick occurs), #26 (diff(x,0) = x). *)
 From Coq Require Import ZArith List Bool String Ascii.
 Import ListNotations.
-Require Import PyBase Funcs FuncsFacts FuncsExamples EvalIdx EvalIdxFacts EvalIdxExamples.
+Require Import PyBase Funcs FuncsFacts FuncsExamples FuncsFacts2 FuncsExamples2 EvalIdx EvalIdxFacts EvalIdxExamples EvalIdxWhole EvalIdxWholeExamples EvalIdxLocate EvalIdxLocateExamples.
+Require Fsic.Locate.Locate Fsic.Locate.LocateFacts.
 Open Scope string_scope.
 Open Scope Z_scope.
 
@@ -122,6 +123,31 @@ Section C16_helpers.
   Theorem C16_diff_rank_refused (h : heap A) (lx : nat) (a : arr A) (d0 : Z) (fill : A) :
     nth_error h lx = Some a -> rank a <> 1%nat -> diff_H A sub h lx d0 fill = (h, Raise NotImplementedError).
   Proof. exact (diff_H_rank A sub h lx a d0 fill). Qed.
+
+  (* whole-array closed forms: lag = fill block ++ kept block; lead = kept block ++ fill block; diff with d >= length = the
+     constant fill array; diff = fill block ++ element-wise differences; dlog likewise on log x *)
+  Theorem C16_lag_closed_form (x : list A) (p : nat) (fill : A) :
+    (p <= List.length x)%nat -> lag_v A x (Z.of_nat p) fill = (repeat fill p ++ firstn (List.length x - p) x)%list.
+  Proof. exact (lag_closed_form A x p fill). Qed.
+
+  Theorem C16_lead_closed_form (x : list A) (p : nat) (fill : A) :
+    (p <= List.length x)%nat -> lead_v A x (Z.of_nat p) fill = (skipn p x ++ repeat fill p)%list.
+  Proof. exact (lead_closed_form A x p fill). Qed.
+
+  Theorem C16_diff_out_of_range_is_all_fill (x : list A) (d0 : Z) (fill : A) :
+    0 < d0 -> Z.of_nat (List.length x) <= d0 -> diff_v A sub x d0 fill = Ret (repeat fill (List.length x)).
+  Proof. exact (diff_out_of_range_is_all_fill A sub x d0 fill). Qed.
+
+  Theorem C16_diff_closed_form (x : list A) (d0 : nat) (fill : A) :
+    (0 < d0)%nat -> (d0 <= List.length x)%nat ->
+    diff_v A sub x (Z.of_nat d0) fill = Ret (repeat fill d0 ++ zip_with A sub (skipn d0 x) (firstn (List.length x - d0) x))%list.
+  Proof. exact (diff_closed_form A sub x d0 fill). Qed.
+
+  Theorem C16_dlog_closed_form (x : list A) (d0 : nat) (fill : A) :
+    (0 < d0)%nat -> (d0 <= List.length x)%nat ->
+    dlog_v A sub logf x (Z.of_nat d0) fill
+    = Ret (repeat fill d0 ++ zip_with A sub (skipn d0 (map logf x)) (firstn (List.length x - d0) (map logf x)))%list.
+  Proof. exact (dlog_closed_form A sub logf x d0 fill). Qed.
 End C16_helpers.
 
 (* finding #26: the statement's formula taken literally at d = 0 (x[i] - x[i-0] = 0) is false of the code *)
@@ -163,10 +189,11 @@ Section C16_rewrite.
   Variable has : label -> bool.
   Variable locate : label -> outcome loc.
 
-  (* a backticked label text is looked up as a string first, then after int() *)
+  (* a backticked label text is looked up as a string first, then after int() (parse_int_raw = CPython's int() on the text
+     as it stands between the backticks: int() skips fewer characters than str.strip()) *)
   Local Notation "a '~>' l" :=
     ((has (LStr a) = true /\ locate (LStr a) = Ret l) \/
-     (has (LStr a) = false /\ exists z, parse_pyint a = Some z /\ has (LInt z) = true /\ locate (LInt z) = Ret l))
+     (has (LStr a) = false /\ exists z, parse_int_raw a = Some z /\ has (LInt z) = true /\ locate (LInt z) = Ret l))
     (at level 70).
   Local Notation no_tick a := (has_char ch_tick a = false).
   Local Notation no_colon a := (has_char ch_colon a = false).
@@ -220,7 +247,7 @@ Section C16_rewrite.
   (* a label that is not in the span (neither as written nor as an integer): KeyError, never another period *)
   Theorem C16_label_missing_KeyError (a : string) :
     no_tick a -> no_colon a ->
-    has (LStr a) = false /\ (parse_pyint a = None \/ exists z, parse_pyint a = Some z /\ has (LInt z) = false) ->
+    has (LStr a) = false /\ (parse_int_raw a = None \/ exists z, parse_int_raw a = Some z /\ has (LInt z) = false) ->
     resolve_group has locate ("`" ++ a ++ "`") = Raise KeyError.
   Proof. exact (label_missing_KeyError has locate a). Qed.
 
@@ -306,6 +333,70 @@ Section C16_rewrite.
     no_colon pa -> no_colon pb -> no_colon pc ->
     resolve_group has locate (pa ++ ":" ++ pb ++ ":" ++ pc ++ ":" ++ rest) = Raise ValueError.
   Proof. exact (resolve_group_too_many has locate pa pb pc rest). Qed.
+
+  (* ---- WHOLE expressions: any number of brackets, any text between them.  An expression is cut into segments
+          "text without an opening bracket, then a bracket [ ws1 g ws2 ]" (seg_ok: ws1/ws2 regex whitespace, g non-empty
+          without closing bracket/newline and not starting/ending with whitespace) followed by a bracket-free tail. ---- *)
+  (* all brackets resolve: every bracket is replaced by its callback's text, everything else is copied verbatim *)
+  Theorem C16_whole_expression_rewrite (segs : list seg) (ts : list string) (tail : string) :
+    forallb seg_ok segs = true -> has_char ch_open tail = false ->
+    Forall2 (fun s t => resolve_group has locate (sg_g s) = Ret t) segs ts ->
+    rewrite has locate (expr_text segs tail) = Ret (expr_subst segs ts tail).
+  Proof. exact (rewrite_whole_ok has locate segs ts tail). Qed.
+
+  (* the leftmost bracket whose callback raises decides the outcome, whatever follows it *)
+  Theorem C16_whole_expression_first_error (segs1 : list seg) (ts : list string) (s : seg) (segs2 : list seg) (tail : string) (e : exn) :
+    forallb seg_ok (segs1 ++ s :: segs2) = true -> has_char ch_open tail = false ->
+    Forall2 (fun s t => resolve_group has locate (sg_g s) = Ret t) segs1 ts ->
+    resolve_group has locate (sg_g s) = Raise e ->
+    rewrite has locate (expr_text (segs1 ++ s :: segs2) tail) = Raise e.
+  Proof. exact (rewrite_whole_first_error has locate segs1 ts s segs2 tail e). Qed.
+
+  (* EVERY string: the rewriter raises nothing but ValueError, KeyError, AttributeError or what the span lookup itself raises
+     (C10: _locate_period_in_span converts everything to KeyError) *)
+  Theorem C16_rewrite_exceptions (s : string) (e : exn) :
+    rewrite has locate s = Raise e ->
+    e = ValueError \/ e = KeyError \/ e = AttributeError \/ exists l, locate l = Raise e.
+  Proof. exact (rewrite_exceptions has locate s e). Qed.
+
+  (* whitespace padding around the index / around each slice item never changes the result *)
+  Theorem C16_bracket_padding_ignored_index (w1 p w2 : string) :
+    str_all is_py_space w1 = true -> str_all is_py_space w2 = true -> no_colon p ->
+    resolve_group has locate (w1 ++ p ++ w2) = resolve_group has locate p.
+  Proof. exact (resolve_group_pad1 has locate w1 p w2). Qed.
+
+  Theorem C16_bracket_padding_ignored_slice (w1 pa w2 w3 pb w4 : string) :
+    str_all is_py_space w1 = true -> str_all is_py_space w2 = true ->
+    str_all is_py_space w3 = true -> str_all is_py_space w4 = true ->
+    no_colon pa -> no_colon pb ->
+    resolve_group has locate ((w1 ++ pa ++ w2) ++ ":" ++ (w3 ++ pb ++ w4)) = resolve_group has locate (pa ++ ":" ++ pb).
+  Proof. exact (resolve_group_pad2 has locate w1 pa w2 w3 pb w4). Qed.
+
+  Theorem C16_bracket_padding_ignored_slice_step (w1 pa w2 w3 pb w4 w5 ps w6 : string) :
+    str_all is_py_space w1 = true -> str_all is_py_space w2 = true ->
+    str_all is_py_space w3 = true -> str_all is_py_space w4 = true ->
+    str_all is_py_space w5 = true -> str_all is_py_space w6 = true ->
+    no_colon pa -> no_colon pb -> no_colon ps ->
+    resolve_group has locate ((w1 ++ pa ++ w2) ++ ":" ++ ((w3 ++ pb ++ w4) ++ ":" ++ (w5 ++ ps ++ w6)))
+    = resolve_group has locate (pa ++ ":" ++ (pb ++ ":" ++ ps)).
+  Proof. exact (resolve_group_pad3 has locate w1 pa w2 w3 pb w4 w5 ps w6). Qed.
+
+  (* a backticked label anywhere in an expression is replaced by the location label indexing gives.  Guards on the label:
+     no backtick, colon, closing bracket or newline inside it (C16_label_with_colon_refuted shows they are needed) *)
+  Theorem C16_label_index_in_expression (pre ws1 a ws2 post : string) (l : loc) :
+    has_char ch_open pre = false -> str_all is_re_space ws1 = true -> str_all is_re_space ws2 = true ->
+    no_tick a -> no_colon a -> has_char ch_close a = false -> has_char ch_nl a = false ->
+    a ~> l ->
+    rewrite has locate (pre ++ "[" ++ ws1 ++ ("`" ++ a ++ "`") ++ ws2 ++ "]" ++ post)
+    = omap (fun u => pre ++ ("[" ++ str_loc l ++ "]") ++ u) (rewrite has locate post).
+  Proof. exact (label_index_in_expression has locate pre ws1 a ws2 post l). Qed.
+
+  Theorem C16_label_missing_in_expression (pre ws1 a ws2 post : string) :
+    has_char ch_open pre = false -> str_all is_re_space ws1 = true -> str_all is_re_space ws2 = true ->
+    no_tick a -> no_colon a -> has_char ch_close a = false -> has_char ch_nl a = false ->
+    has (LStr a) = false /\ (parse_int_raw a = None \/ exists z, parse_int_raw a = Some z /\ has (LInt z) = false) ->
+    rewrite has locate (pre ++ "[" ++ ws1 ++ ("`" ++ a ++ "`") ++ ws2 ++ "]" ++ post) = Raise KeyError.
+  Proof. exact (label_missing_in_expression has locate pre ws1 a ws2 post). Qed.
 End C16_rewrite.
 
 (* meaning of a positional slice before and after the rewrite: [oa : ob] becomes [oa : ob+1] *)
@@ -332,6 +423,102 @@ Theorem C16_positional_rewritten_in_expression_refuted :
     eval_text_span sp e = Ret e' /\ e' <> e /\
     e = "X[1:3] + Y[`2001`]" /\ e' = "X[1:4:] + Y[1]" /\ index_sem 5 "1:3" = Some [1; 2]%nat /\ index_sem 5 "1:4:" = Some [1; 2; 3]%nat.
 Proof. exact positional_rewritten_in_expression_refuted. Qed.
+
+(* NEW finding: a label that contains a colon is not read as that label — X[`a:b`] on the span [a; a:b; b; ...] is rewritten to
+   the label SLICE a..b (positions 0..2) whereas label indexing selects position 1; labels containing a closing bracket or
+   starting with a backtick raise KeyError although they are in the span *)
+Theorem C16_label_with_colon_refuted :
+  exists (sp : span_model) (a : string) (p : nat) (e' : string),
+    span_has sp (LStr a) = true /\ span_locate sp (LStr a) = Ret (LocI PyInt (Z.of_nat p)) /\
+    has_char ch_tick a = false /\
+    eval_text_span sp ("X[`" ++ a ++ "`]") = Ret e' /\
+    e' <> "X[" ++ Z_to_string (Z.of_nat p) ++ "]" /\
+    e' = "X[0:3:]" /\ index_sem 5 "0:3:" = Some [0; 1; 2]%nat /\ index_sem 5 (Z_to_string (Z.of_nat p)) = Some [1]%nat.
+Proof. exact label_with_colon_refuted. Qed.
+
+Theorem C16_label_with_bracket_or_edge_backtick_refuted :
+  exists (sp : span_model) (a b : string),
+    span_has sp (LStr a) = true /\ span_has sp (LStr b) = true /\
+    (exists p, span_locate sp (LStr a) = Ret (LocI PyInt p)) /\ (exists p, span_locate sp (LStr b) = Ret (LocI PyInt p)) /\
+    eval_text_span sp ("X[`" ++ a ++ "`]") = Raise KeyError /\
+    eval_text_span sp ("X[`" ++ b ++ "`]") = Raise KeyError.
+Proof. exact label_with_bracket_or_edge_backtick_refuted. Qed.
+
+(* ====================================================================== the tie to label indexing (the model of property C10) *)
+Section C16_label_indexing.
+  (* `period in self.span` and `self._locate_period_in_span` are those of the C10 model (Locate/Locate.v) on any of its spans
+     (list / range / NumPy array / pandas index with `get_loc` = gl, `__contains__` = ct) *)
+  Variable gl : list Locate.label -> Locate.label -> outcome Locate.loc.
+  Variable ct : list Locate.label -> Locate.label -> bool.
+  Variable sp : Locate.span.
+
+  (* the callback's reading of a backticked text = C10's resolve_bt: the str label if it is in the span, else int(text) *)
+  Theorem C16_label_lookup_is_C10_lookup (a : string) :
+    has_char ch_tick a = false -> has_char ch_colon a = false ->
+    resolve_index (c10_has ct sp) (c10_locate gl sp) ("`" ++ a ++ "`") = omap tr_loc (Locate.resolve_bt gl ct sp (a, parse_int_raw a)).
+  Proof. exact (resolve_index_is_resolve_bt gl ct sp a). Qed.
+
+  (* X[`a`:`b`], either end possibly open: the text written carries exactly the bounds C10's eval_slice_bounds computes —
+     same bounds, same exception, the start looked up first (otext None = "", otext (Some a) = "`a`") *)
+  Theorem C16_label_slice_text_is_C10_bounds (oa ob : option string) :
+    opt_ok oa -> opt_ok ob ->
+    resolve_group (c10_has ct sp) (c10_locate gl sp) (otext oa ++ ":" ++ otext ob) =
+      omap (fun ab => "[" ++ ropt (fst ab) ++ ":" ++ ropt (snd ab) ++ ":" ++ "" ++ "]")
+           (Locate.eval_slice_bounds (Locate.resolve_bt gl ct sp) (okey oa) (okey ob)).
+  Proof. exact (label_slice_text_is_C10_bounds gl ct sp oa ob). Qed.
+
+  Theorem C16_label_slice_step_text_is_C10_bounds (oa ob : option string) (ps : string) :
+    opt_ok oa -> opt_ok ob -> has_char ch_colon ps = false ->
+    resolve_group (c10_has ct sp) (c10_locate gl sp) (otext oa ++ ":" ++ otext ob ++ ":" ++ ps) =
+      omap (fun ab => "[" ++ ropt (fst ab) ++ ":" ++ ropt (snd ab) ++ ":" ++ strip is_py_space ps ++ "]")
+           (Locate.eval_slice_bounds (Locate.resolve_bt gl ct sp) (okey oa) (okey ob)).
+  Proof. exact (label_slice_step_text_is_C10_bounds gl ct sp oa ob ps). Qed.
+
+  (* ... and Python reads the written subscript as the slice with those bounds *)
+  Theorem C16_label_slice_positions_are_C10_positions (oa ob : option string) (s : Z) (n : nat) (a' b' : option Z) :
+    opt_ok oa -> opt_ok ob -> 0 < s ->
+    Locate.eval_slice_bounds (Locate.resolve_bt gl ct sp) (okey oa) (okey ob) = Ret (a', b') ->
+    exists inner,
+      resolve_group (c10_has ct sp) (c10_locate gl sp) (otext oa ++ ":" ++ otext ob ++ ":" ++ Z_to_string s) = Ret ("[" ++ inner ++ "]") /\
+      index_sem n inner = Some (py_slice_positions n a' b' s).
+  Proof. exact (label_slice_positions_are_C10_positions gl ct sp oa ob s n a' b'). Qed.
+End C16_label_indexing.
+
+(* eval('X[`a`:`b`:s]') selects exactly the elements obj['X', a:b:s] returns (inclusive label slice).  Hypotheses: those of
+   C10's C10_eval_slice_agrees (lookup meeting C10's specification and answering built-in ints, distinct labels, both ends
+   present or open, s > 0), the label texts have no backtick/colon, and each text names its label (as str, else through int()) *)
+Theorem C16_eval_label_slice_selects_what_label_indexing_selects
+        (V : Type) (gl : list Locate.label -> Locate.label -> outcome Locate.loc) (ct : list Locate.label -> Locate.label -> bool)
+        (st : Locate.cstate V) (name : string) (sr : Locate.series V)
+        (oa ob : option string) (a b : option Locate.label) (s : Z) (pa pb : nat) :
+  let sp := Locate.c_span st in
+  let lc := Locate.locate gl sp in
+  LocateFacts.locate_spec (Locate.span_labels sp) lc ->
+  Locate.lookup name (Locate.c_vars st) = Some sr ->
+  List.length (Locate.s_data sr) = List.length (Locate.span_labels sp) ->
+  (forall x i fl, lc x = Ret (Locate.LPos i fl) -> fl = true) ->
+  NoDup (Locate.span_labels sp) ->
+  LocateFacts.start_pos (Locate.span_labels sp) a = Some pa ->
+  LocateFacts.stop_pos (Locate.span_labels sp) b = Some pb ->
+  0 < s ->
+  opt_ok oa -> opt_ok ob ->
+  otext_names (c10_has ct sp) oa a -> otext_names (c10_has ct sp) ob b ->
+  exists inner ps,
+    resolve_group (c10_has ct sp) (c10_locate gl sp) (otext oa ++ ":" ++ otext ob ++ ":" ++ Z_to_string s) = Ret ("[" ++ inner ++ "]") /\
+    index_sem (List.length (Locate.s_data sr)) inner = Some ps /\
+    Locate.get_item_with lc st name (Locate.KSlice a b (Some s)) = Ret (Locate.RArr (Locate.gather (Locate.s_data sr) ps)).
+Proof. exact (eval_label_slice_selects_what_label_indexing_selects V gl ct st name sr oa ob a b s pa pb). Qed.
+
+(* kept finding (module-global-visible): "an undefined name is reported as AttributeError naming it" is false for names that
+   are globals of fsic/core/containers.py or Python builtins (eval() passes globals=None): with CPython's name resolution
+   locals_ -> outer names, the name np — neither a helper, a variable nor a local — evaluates to a value.  The guarded
+   statement is C16_eval_undefined_name below: AttributeError naming the name exactly when CPython raised NameError for it. *)
+Theorem C16_undefined_name_leak_refuted :
+  exists (tbl outer vars : list string) (name : string),
+    existsb (String.eqb name) tbl = false /\ existsb (String.eqb name) vars = false /\
+    snd (ns_case tbl outer vars None None name) <> EAttributeError name /\
+    snd (ns_case tbl outer vars None None name) = EVal ("G:" ++ name).
+Proof. exact undefined_name_leak_refuted. Qed.
 
 (* ====================================================================== eval(): namespace, purity, undefined names *)
 Section C16_eval.
@@ -406,6 +593,30 @@ Section C16_eval.
     snd (eval_M V has locate pyeval dh tbl vars expr locals bi)
       = convert V (pyeval expr (ns_update V (ns_update V (base_dict V dh tbl bi) vars) (locals_ns V locals))).
   Proof. exact (eval_no_backtick_passes_text_verbatim V has locate pyeval dh tbl vars expr locals bi). Qed.
+
+  (* eval() of a whole expression with a backtick whose brackets all resolve: CPython evaluates the text with every bracket
+     replaced, in the namespace helpers < variables < locals; the container's variables are unchanged *)
+  Theorem C16_eval_whole_expression (dh : dheap V) (tbl : nat) (vars : ns V) (locals : option (ns V)) (bi : option nat)
+          (segs : list seg) (ts : list string) (tail : string) :
+    forallb seg_ok segs = true -> has_char ch_open tail = false ->
+    has_char ch_tick (expr_text segs tail) = true ->
+    Forall2 (fun s t => resolve_group has locate (sg_g s) = Ret t) segs ts ->
+    (forall l, bi = Some l -> (l < List.length dh)%nat) ->
+    snd (eval_M V has locate pyeval dh tbl vars (expr_text segs tail) locals bi)
+      = convert V (pyeval (expr_subst segs ts tail)
+                          (ns_update V (ns_update V (base_dict V dh tbl bi) vars) (locals_ns V locals))) /\
+    snd (fst (eval_M V has locate pyeval dh tbl vars (expr_text segs tail) locals bi)) = vars.
+  Proof. exact (eval_whole_expression V has locate pyeval dh tbl vars locals bi segs ts tail). Qed.
+
+  (* the leftmost failing bracket is what eval() raises, before any dict is created or touched *)
+  Theorem C16_eval_whole_expression_error (dh : dheap V) (tbl : nat) (vars : ns V) (locals : option (ns V)) (bi : option nat)
+          (segs1 : list seg) (ts : list string) (s : seg) (segs2 : list seg) (tail : string) (e : exn) :
+    forallb seg_ok (segs1 ++ s :: segs2) = true -> has_char ch_open tail = false ->
+    has_char ch_tick (expr_text (segs1 ++ s :: segs2) tail) = true ->
+    Forall2 (fun s t => resolve_group has locate (sg_g s) = Ret t) segs1 ts ->
+    resolve_group has locate (sg_g s) = Raise e ->
+    eval_M V has locate pyeval dh tbl vars (expr_text (segs1 ++ s :: segs2) tail) locals bi = ((dh, vars), ERaise e).
+  Proof. exact (eval_whole_expression_error V has locate pyeval dh tbl vars locals bi segs1 ts s segs2 tail e). Qed.
 End C16_eval.
 
 Print Assumptions C16_lag_spec.
@@ -462,3 +673,26 @@ Print Assumptions C16_eval_rewrite_error.
 Print Assumptions C16_eval_caller_builtins_updated.
 Print Assumptions C16_eval_undefined_name.
 Print Assumptions C16_eval_no_backtick_passes_text_verbatim.
+Print Assumptions C16_whole_expression_rewrite.
+Print Assumptions C16_whole_expression_first_error.
+Print Assumptions C16_rewrite_exceptions.
+Print Assumptions C16_bracket_padding_ignored_index.
+Print Assumptions C16_bracket_padding_ignored_slice.
+Print Assumptions C16_bracket_padding_ignored_slice_step.
+Print Assumptions C16_label_index_in_expression.
+Print Assumptions C16_label_missing_in_expression.
+Print Assumptions C16_label_with_colon_refuted.
+Print Assumptions C16_label_with_bracket_or_edge_backtick_refuted.
+Print Assumptions C16_eval_whole_expression.
+Print Assumptions C16_eval_whole_expression_error.
+Print Assumptions C16_label_lookup_is_C10_lookup.
+Print Assumptions C16_label_slice_text_is_C10_bounds.
+Print Assumptions C16_label_slice_step_text_is_C10_bounds.
+Print Assumptions C16_label_slice_positions_are_C10_positions.
+Print Assumptions C16_eval_label_slice_selects_what_label_indexing_selects.
+Print Assumptions C16_lag_closed_form.
+Print Assumptions C16_lead_closed_form.
+Print Assumptions C16_diff_out_of_range_is_all_fill.
+Print Assumptions C16_diff_closed_form.
+Print Assumptions C16_dlog_closed_form.
+Print Assumptions C16_undefined_name_leak_refuted.
